@@ -7,86 +7,80 @@
 //!      under every issued key's public JWK (signature matrix), `count()`. Slots (issued ids) are capped, so
 //!      the search reaches closure; a second, depth-bounded run puts the depth into the fingerprint.
 //! (a2) E2, KeyIdMemstore, to closure: digests x key ids x {insert, get, delete}.
+//!      The op alphabet, reference model and oracle of (a1)/(a2) live in `c15/seq.rs`, generic over the store
+//!      under test, because the Stronghold binary runs the same histories.
 //! (b)  E3, shuttle 0.9 DFS over every schedule of 2..4 threads racing on the stores (scheduling points = the
 //!      `verif-hooks` hook before every lock acquisition). Brute-force linearizability oracle: per-thread
 //!      results + final store content must equal those of SOME sequential interleaving of the calls.
-//! (c)  Stronghold: not here (separate binary).
+//! (c)  Stronghold: not here (separate binary `c15s` in /verif/harness-stronghold, same `c15/seq.rs`).
 
-use identity_eddsa_verifier::EdDSAJwsVerifier;
-use identity_jose::jwk::{EcCurve, Jwk, JwkParamsEc};
-use identity_jose::jws::{JwsAlgorithm, JwsVerifier, VerificationInput};
-use identity_storage::{JwkGenOutput, JwkMemStore, JwkStorage, KeyId, KeyIdMemstore, KeyIdStorage, KeyType, MethodDigest};
+#[path = "c15/seq.rs"]
+mod seq;
+
+use identity_jose::jwk::Jwk;
+use identity_jose::jws::JwsAlgorithm;
+use identity_storage::{JwkMemStore, JwkStorage, KeyId, KeyIdMemstore, KeyIdStorage, KeyType};
+use seq::{digest, key_id, key_id_index, verifies, Backend, Gk, IModel, IOp, KModel, KOp, MSG};
 use serde::{Deserialize, Serialize};
-use sha2::{Digest, Sha256};
 use std::cell::Cell;
 use std::collections::{BTreeMap, BTreeSet};
-use std::hash::{Hash, Hasher};
+use std::future::Future;
 use std::sync::atomic::{AtomicBool, Ordering};
 use std::sync::{Arc, Mutex, Once};
-use vx::fx::{b64, EdKey};
 use vx::gate::block_on;
 use vx::rayon::prelude::*;
-use vx::sr::Collector;
-use vx::stateright::{Model, Property};
 use vx::{guard, json, Ctx, Level};
 
-const MSG: &[u8] = b"c15 signing input";
-const NEVER: u8 = 255;
+// ================================================================================================ the stores under test
+
+/// The in-memory stores shipped with identity_storage.
+struct Mem;
+impl Backend for Mem {
+  const KEY_STORE: &'static str = "JwkMemStore";
+  const KEYID_STORE: &'static str = "KeyIdMemstore";
+  const PERSISTENT: bool = false;
+  type Keys = JwkMemStore;
+  type KeyIds = KeyIdMemstore;
+  type KeysH = JwkMemStore;
+  type KeyIdsH = KeyIdMemstore;
+  fn open_keys() -> JwkMemStore {
+    JwkMemStore::new()
+  }
+  fn keys(h: &JwkMemStore) -> &JwkMemStore {
+    h
+  }
+  fn key_count(h: &JwkMemStore) -> Option<usize> {
+    Some(block_on(h.count()))
+  }
+  fn reopen_keys(_: &mut JwkMemStore) -> Result<(), String> {
+    Ok(())
+  }
+  fn open_keyids() -> KeyIdMemstore {
+    KeyIdMemstore::new()
+  }
+  fn keyids(h: &KeyIdMemstore) -> &KeyIdMemstore {
+    h
+  }
+  fn keyid_count(h: &KeyIdMemstore) -> Option<usize> {
+    Some(block_on(h.count()))
+  }
+  fn reopen_keyids(_: &mut KeyIdMemstore) -> Result<(), String> {
+    Ok(())
+  }
+  fn key_type(k: Gk) -> KeyType {
+    match k {
+      Gk::Ed25519 => JwkMemStore::ED25519_KEY_TYPE,
+      Gk::Bls12381G2 => JwkMemStore::BLS12381G2_KEY_TYPE,
+      Gk::Bogus => KeyType::new("bogus"),
+    }
+  }
+  fn block_on<F: Future>(f: F) -> F::Output {
+    block_on(f)
+  }
+}
 
 // ================================================================================================ cases
 
-#[derive(Serialize, Deserialize, Debug, Clone, Copy, PartialEq, Eq, Hash)]
-enum Gk {
-  Ed25519,
-  Bls12381G2,
-  Bogus,
-}
-#[derive(Serialize, Deserialize, Debug, Clone, Copy, PartialEq, Eq, Hash)]
-enum Ga {
-  EdDsa,
-  Es256,
-}
-#[derive(Serialize, Deserialize, Debug, Clone, Copy, PartialEq, Eq, Hash)]
-enum Ins {
-  /// fully private Ed25519 JWK of harness key `seed`, alg EdDSA
-  Valid(u8),
-  PublicOnly,
-  NoAlg,
-  /// alg ES256 on an Ed25519 key
-  WrongAlg,
-  /// private P-256 key, alg ES256
-  EcKey,
-  /// Ed25519 JWK whose `d` is 3 bytes long
-  MalformedD,
-}
-/// The `public_key` argument of `sign`.
-#[derive(Serialize, Deserialize, Debug, Clone, Copy, PartialEq, Eq, Hash)]
-enum Pk {
-  Own,
-  /// the public JWK of another slot (mismatched public key)
-  Other(u8),
-  /// own key, alg ES256
-  WrongAlg,
-  /// own key, no alg
-  NoAlg,
-  /// a P-256 public key with alg EdDSA
-  NonOkp,
-}
-#[derive(Serialize, Deserialize, Debug, Clone, Copy, PartialEq, Eq, Hash)]
-enum KOp {
-  Generate(Gk, Ga),
-  Insert(Ins),
-  /// slot = index in issuance order, or NEVER (255) = an id the store never issued
-  Sign(u8, Pk),
-  Delete(u8),
-  Exists(u8),
-}
-#[derive(Serialize, Deserialize, Debug, Clone, Copy, PartialEq, Eq, Hash)]
-enum IOp {
-  Insert(u8, u8),
-  Get(u8),
-  Delete(u8),
-}
 /// Reference to a key in a thread program.
 #[derive(Serialize, Deserialize, Debug, Clone, Copy, PartialEq, Eq, Hash, PartialOrd, Ord)]
 enum KRef {
@@ -121,749 +115,6 @@ enum Case {
   Jwk { cap: u8, hist: Vec<KOp> },
   KeyId { hist: Vec<IOp> },
   Threads(Program),
-}
-
-// ================================================================================================ helpers
-
-fn kerr_kind<T: std::fmt::Debug + std::fmt::Display>(e: &identity_core::common::SingleStructError<T>) -> String {
-  format!("{:?}", e.kind())
-}
-
-/// RFC 7638 thumbprint of an Ed25519 public JWK, computed from the member `x` alone.
-fn okp_thumbprint(x: &str) -> String {
-  let canon = format!("{{\"crv\":\"Ed25519\",\"kty\":\"OKP\",\"x\":\"{x}\"}}");
-  b64(Sha256::digest(canon.as_bytes()))
-}
-
-fn verifies(sig: &[u8], public: &Jwk) -> bool {
-  let input = VerificationInput { alg: JwsAlgorithm::EdDSA, signing_input: MSG.into(), decoded_signature: sig.into() };
-  matches!(guard(|| EdDSAJwsVerifier::default().verify(input, public)), Ok(Ok(())))
-}
-
-fn p256_private_jwk() -> Jwk {
-  let k = vx::fx::P256Key::new(4);
-  let mut params: JwkParamsEc = k.public.try_ec_params().expect("ec params").clone();
-  params.crv = EcCurve::P256.name().to_string();
-  params.d = Some(b64([7u8; 32]));
-  let mut j = Jwk::from_params(params);
-  j.set_alg("ES256");
-  j
-}
-fn p256_public_jwk_eddsa() -> Jwk {
-  let mut j = vx::fx::P256Key::new(4).public;
-  j.set_alg("EdDSA");
-  j
-}
-
-fn insert_jwk(v: Ins) -> Jwk {
-  match v {
-    Ins::Valid(seed) => EdKey::new(seed).private_with_alg("EdDSA"),
-    Ins::PublicOnly => EdKey::new(3).public_with_alg("EdDSA"),
-    Ins::NoAlg => EdKey::new(3).private,
-    Ins::WrongAlg => EdKey::new(3).private_with_alg("ES256"),
-    Ins::EcKey => p256_private_jwk(),
-    Ins::MalformedD => {
-      let mut j = EdKey::new(3).private_with_alg("EdDSA");
-      j.try_okp_params_mut().expect("okp").d = Some(b64([1u8, 2, 3]));
-      j
-    }
-  }
-}
-
-// ================================================================================================ (a1) JwkStorage histories
-
-#[derive(Clone, Debug, PartialEq, Eq, Hash)]
-enum Origin {
-  Gen,
-  Ins(u8),
-  Malformed,
-}
-#[derive(Clone, Debug, PartialEq, Eq, Hash)]
-struct MSlot {
-  origin: Origin,
-  live: bool,
-}
-/// Observation of one id: exists (0 false, 1 true, 2 error), sign with the own public JWK (None = error,
-/// Some(mask) = bit j set iff the signature verifies under slot j's public JWK).
-type SlotObs = (u8, Option<u32>);
-#[derive(Clone, Debug, PartialEq, Eq, Hash)]
-struct KObs {
-  slots: Vec<SlotObs>,
-  never: SlotObs,
-  count: usize,
-}
-
-struct RSlot {
-  id: KeyId,
-  public: Jwk,
-}
-struct Real {
-  store: JwkMemStore,
-  slots: Vec<RSlot>,
-}
-
-enum KRes {
-  Gen(Result<JwkGenOutput, String>),
-  Ins(Result<KeyId, String>),
-  Sign(Result<Vec<u8>, String>),
-  Del(Result<(), String>),
-  Ex(Result<bool, String>),
-  Panic(vx::Panicked),
-}
-
-impl Real {
-  fn new() -> Real {
-    Real { store: JwkMemStore::new(), slots: Vec::new() }
-  }
-  fn id(&self, slot: u8) -> KeyId {
-    if slot == NEVER {
-      KeyId::new("never-issued-key-id")
-    } else {
-      self.slots[slot as usize].id.clone()
-    }
-  }
-  fn own_public(&self, slot: u8) -> Jwk {
-    if slot == NEVER {
-      EdKey::new(9).public_with_alg("EdDSA")
-    } else {
-      self.slots[slot as usize].public.clone()
-    }
-  }
-  /// Run one operation on the real store (no judgement).
-  fn apply(&mut self, op: KOp) -> KRes {
-    let store = &self.store;
-    match op {
-      KOp::Generate(k, a) => {
-        let kt = match k {
-          Gk::Ed25519 => JwkMemStore::ED25519_KEY_TYPE,
-          Gk::Bls12381G2 => JwkMemStore::BLS12381G2_KEY_TYPE,
-          Gk::Bogus => KeyType::new("bogus"),
-        };
-        let alg = if a == Ga::EdDsa { JwsAlgorithm::EdDSA } else { JwsAlgorithm::ES256 };
-        match guard(|| block_on(store.generate(kt, alg))) {
-          Err(p) => KRes::Panic(p),
-          Ok(r) => KRes::Gen(r.map_err(|e| kerr_kind(&e))),
-        }
-      }
-      KOp::Insert(v) => match guard(|| block_on(store.insert(insert_jwk(v)))) {
-        Err(p) => KRes::Panic(p),
-        Ok(r) => KRes::Ins(r.map_err(|e| kerr_kind(&e))),
-      },
-      KOp::Sign(slot, pk) => {
-        let id = self.id(slot);
-        let public = match pk {
-          Pk::Own => self.own_public(slot),
-          Pk::Other(j) => self.own_public(j),
-          Pk::WrongAlg => {
-            let mut j = self.own_public(slot);
-            j.set_alg("ES256");
-            j
-          }
-          Pk::NoAlg => {
-            // rebuild without alg
-            let own = self.own_public(slot);
-            Jwk::from_params(own.try_okp_params().expect("okp").clone())
-          }
-          Pk::NonOkp => p256_public_jwk_eddsa(),
-        };
-        match guard(|| block_on(store.sign(&id, MSG, &public))) {
-          Err(p) => KRes::Panic(p),
-          Ok(r) => KRes::Sign(r.map_err(|e| kerr_kind(&e))),
-        }
-      }
-      KOp::Delete(slot) => {
-        let id = self.id(slot);
-        match guard(|| block_on(store.delete(&id))) {
-          Err(p) => KRes::Panic(p),
-          Ok(r) => KRes::Del(r.map_err(|e| kerr_kind(&e))),
-        }
-      }
-      KOp::Exists(slot) => {
-        let id = self.id(slot);
-        match guard(|| block_on(store.exists(&id))) {
-          Err(p) => KRes::Panic(p),
-          Ok(r) => KRes::Ex(r.map_err(|e| kerr_kind(&e))),
-        }
-      }
-    }
-  }
-  /// Book-keeping shared by replay and judged application: a successful generate / insert issues a slot.
-  fn record(&mut self, op: KOp, res: &KRes) {
-    match (op, res) {
-      (KOp::Generate(..), KRes::Gen(Ok(out))) => self.slots.push(RSlot { id: out.key_id.clone(), public: out.jwk.clone() }),
-      (KOp::Insert(v), KRes::Ins(Ok(id))) => {
-        let seed = if let Ins::Valid(s) = v { s } else { 3 };
-        self.slots.push(RSlot { id: id.clone(), public: EdKey::new(seed).public_with_alg("EdDSA") })
-      }
-      _ => {}
-    }
-  }
-  fn observe_id(&self, id: &KeyId, public: &Jwk) -> SlotObs {
-    let e = match guard(|| block_on(self.store.exists(id))) {
-      Ok(Ok(false)) => 0,
-      Ok(Ok(true)) => 1,
-      _ => 2,
-    };
-    let s = match guard(|| block_on(self.store.sign(id, MSG, public))) {
-      Ok(Ok(sig)) => {
-        let mut mask = 0u32;
-        for (j, other) in self.slots.iter().enumerate() {
-          if verifies(&sig, &other.public) {
-            mask |= 1 << j;
-          }
-        }
-        Some(mask)
-      }
-      _ => None,
-    };
-    (e, s)
-  }
-  fn observe(&self) -> KObs {
-    KObs {
-      slots: self.slots.iter().map(|s| self.observe_id(&s.id, &s.public)).collect(),
-      never: self.observe_id(&self.id(NEVER), &self.own_public(NEVER)),
-      count: block_on(self.store.count()),
-    }
-  }
-}
-
-/// What the model says the observation vector must be. `None` in a sign position = not judged (malformed key).
-fn expected_obs(slots: &[MSlot]) -> (Vec<(u8, Option<Option<u32>>)>, usize) {
-  let v = slots
-    .iter()
-    .map(|s| {
-      let e = s.live as u8;
-      let sign = match (&s.origin, s.live) {
-        (_, false) => Some(None),
-        (Origin::Malformed, true) => None,
-        (o, true) => {
-          let mut mask = 0u32;
-          for (j, t) in slots.iter().enumerate() {
-            if t.origin == *o && (matches!(o, Origin::Ins(_)) || std::ptr::eq(t, s)) {
-              mask |= 1 << j;
-            }
-          }
-          Some(Some(mask))
-        }
-      };
-      (e, sign)
-    })
-    .collect();
-  (v, slots.iter().filter(|s| s.live).count())
-}
-
-#[derive(Clone, Debug)]
-struct KState {
-  hist: Vec<KOp>,
-  slots: Vec<MSlot>,
-  obs: KObs,
-  /// 0 unless the run is depth-bounded
-  depth: u16,
-}
-impl PartialEq for KState {
-  fn eq(&self, o: &Self) -> bool {
-    self.slots == o.slots && self.obs == o.obs && self.depth == o.depth
-  }
-}
-impl Eq for KState {}
-impl Hash for KState {
-  fn hash<H: Hasher>(&self, h: &mut H) {
-    self.slots.hash(h);
-    self.obs.hash(h);
-    self.depth.hash(h);
-  }
-}
-
-struct KModel {
-  cap: u8,
-  track_depth: bool,
-  col: Arc<Collector>,
-  diverged: Arc<AtomicBool>,
-}
-
-fn slot_class(slots: &[MSlot], slot: u8) -> &'static str {
-  if slot == NEVER {
-    "never-issued-key"
-  } else if slots[slot as usize].live {
-    "live-key"
-  } else {
-    "deleted-key"
-  }
-}
-
-impl KModel {
-  /// Rebuild the real store of a state by replaying its history.
-  fn rebuild(&self, s: &KState) -> Real {
-    let mut real = Real::new();
-    for op in &s.hist {
-      let r = real.apply(*op);
-      real.record(*op, &r);
-    }
-    if real.slots.len() != s.slots.len() {
-      self.diverged.store(true, Ordering::Relaxed);
-    }
-    real
-  }
-
-  /// Apply `op` to a rebuilt store and to the model, judge result and resulting observation.
-  /// `None` = violation or a case the statement leaves open (recorded) — not expanded further.
-  fn step(&self, s: &KState, op: KOp) -> Option<KState> {
-    self.col.eval1();
-    let mut real = self.rebuild(s);
-    let mut hist = s.hist.clone();
-    hist.push(op);
-    let case = Case::Jwk { cap: self.cap, hist: hist.clone() };
-    let mut slots = s.slots.clone();
-    let res = real.apply(op);
-    let viol = |key: &str, what: String| self.col.violation(key, &format!("{what}; history {hist:?}"), &case);
-    let mut ok = true;
-    let label: String;
-    match (&op, &res) {
-      (_, KRes::Panic(p)) => {
-        viol(&format!("JwkStorage::{}|{}", op_name(op), p.key()), p.msg.clone());
-        self.col.outcome(&format!("{}:panic", op_name(op)));
-        return None;
-      }
-      (KOp::Generate(k, a), KRes::Gen(r)) => {
-        let baseline = *k == Gk::Ed25519 && *a == Ga::EdDsa;
-        match r {
-          Err(kind) => {
-            if baseline {
-              viol("JwkStorage::generate|Ed25519+EdDSA|rejected", format!("Err({kind})"));
-              ok = false;
-            }
-            label = format!("generate({k:?},{a:?}):err({kind})");
-          }
-          Ok(out) => {
-            if !baseline {
-              // a store may support more than the statement's baseline: recorded, not judged, not expanded
-              self.col.outcome(&format!("generate({k:?},{a:?}):ok(unjudged)"));
-              return None;
-            }
-            if real.slots.iter().any(|x| x.id == out.key_id) {
-              viol("JwkStorage::generate|key-id-not-fresh", format!("id {} was issued before", out.key_id));
-              ok = false;
-            }
-            let j = serde_json::to_value(&out.jwk).unwrap_or_default();
-            if j.get("d").is_some() || !out.jwk.is_public() || out.jwk.is_private() {
-              viol("JwkStorage::generate|jwk-not-public-only", "the returned JWK carries private members".into());
-              ok = false;
-            }
-            let x = j.get("x").and_then(|x| x.as_str()).unwrap_or("");
-            if j.get("kty").and_then(|v| v.as_str()) != Some("OKP") || j.get("crv").and_then(|v| v.as_str()) != Some("Ed25519") {
-              viol("JwkStorage::generate|wrong-key-type", format!("{j}"));
-              ok = false;
-            } else if out.jwk.kid() != Some(okp_thumbprint(x).as_str()) {
-              viol(
-                "JwkStorage::generate|kid-not-rfc7638-thumbprint",
-                format!("kid {:?}, thumbprint {}", out.jwk.kid(), okp_thumbprint(x)),
-              );
-              ok = false;
-            }
-            if out.jwk.alg() != Some("EdDSA") {
-              viol("JwkStorage::generate|alg-not-the-requested-one", format!("alg {:?}", out.jwk.alg()));
-              ok = false;
-            }
-            slots.push(MSlot { origin: Origin::Gen, live: true });
-            label = format!("generate({k:?},{a:?}):ok");
-          }
-        }
-      }
-      (KOp::Insert(v), KRes::Ins(r)) => match r {
-        Err(kind) => {
-          if matches!(v, Ins::Valid(_)) {
-            viol("JwkStorage::insert|valid-private-jwk|rejected", format!("Err({kind})"));
-            ok = false;
-          }
-          label = format!("insert({}):err({kind})", ins_name(*v));
-        }
-        Ok(id) => {
-          if real.slots.iter().any(|x| x.id == *id) {
-            viol("JwkStorage::insert|key-id-not-fresh", format!("id {id} was issued before"));
-            ok = false;
-          }
-          match v {
-            Ins::Valid(seed) => slots.push(MSlot { origin: Origin::Ins(*seed), live: true }),
-            Ins::MalformedD => slots.push(MSlot { origin: Origin::Malformed, live: true }),
-            Ins::PublicOnly => {
-              viol("JwkStorage::insert|public-only-jwk|accepted", "a JWK without private members was stored".into());
-              ok = false;
-            }
-            Ins::NoAlg => {
-              viol("JwkStorage::insert|jwk-without-alg|accepted", "a JWK without alg was stored".into());
-              ok = false;
-            }
-            Ins::WrongAlg => {
-              viol("JwkStorage::insert|incompatible-alg|accepted", "an Ed25519 JWK with alg ES256 was stored".into());
-              ok = false;
-            }
-            Ins::EcKey => {
-              self.col.outcome("insert(ec-key):ok(unjudged)");
-              return None;
-            }
-          }
-          label = format!("insert({}):ok", ins_name(*v));
-        }
-      },
-      (KOp::Sign(slot, pk), KRes::Sign(r)) => {
-        let class = slot_class(&slots, *slot);
-        let malformed = *slot != NEVER && slots[*slot as usize].origin == Origin::Malformed;
-        match r {
-          Ok(sig) => {
-            if class != "live-key" {
-              viol(&format!("JwkStorage::sign|{class}|signed"), format!("public key variant {pk:?}"));
-              ok = false;
-            } else {
-              let own = *slot as usize;
-              for (j, other) in real.slots.iter().enumerate() {
-                let same = j == own || (slots[j].origin == slots[own].origin && matches!(slots[own].origin, Origin::Ins(_)));
-                let v = verifies(sig, &other.public);
-                if same && !v && !malformed {
-                  viol("JwkStorage::sign|signature-does-not-verify-under-the-keys-public-jwk", format!("slot {own}, public key variant {pk:?}"));
-                  ok = false;
-                }
-                if !same && v {
-                  viol("JwkStorage::sign|signature-verifies-under-another-stored-key", format!("slot {own} verified under slot {j}"));
-                  ok = false;
-                }
-              }
-            }
-            label = format!("sign({class},{}):ok", pk_name(*pk));
-          }
-          Err(kind) => {
-            if class == "live-key" && *pk == Pk::Own && !malformed {
-              viol("JwkStorage::sign|live-key|cannot-sign", format!("Err({kind})"));
-              ok = false;
-            }
-            label = format!("sign({class}{},{}):err({kind})", if malformed { "/malformed-d" } else { "" }, pk_name(*pk));
-          }
-        }
-      }
-      (KOp::Delete(slot), KRes::Del(r)) => {
-        let class = slot_class(&slots, *slot);
-        match r {
-          Ok(()) => {
-            if class == "live-key" {
-              slots[*slot as usize].live = false;
-            } else {
-              viol(&format!("JwkStorage::delete|{class}|accepted"), "delete returned Ok".into());
-              ok = false;
-            }
-            label = format!("delete({class}):ok");
-          }
-          Err(kind) => {
-            if class == "live-key" {
-              viol("JwkStorage::delete|live-key|rejected", format!("Err({kind})"));
-              ok = false;
-            }
-            label = format!("delete({class}):err({kind})");
-          }
-        }
-      }
-      (KOp::Exists(slot), KRes::Ex(r)) => {
-        let class = slot_class(&slots, *slot);
-        match r {
-          Ok(true) if class != "live-key" => {
-            viol(&format!("JwkStorage::exists|{class}|reported-present"), "exists returned true".into());
-            ok = false;
-          }
-          Ok(false) | Err(_) if class == "live-key" => {
-            viol("JwkStorage::exists|live-key|reported-absent", format!("{r:?}"));
-            ok = false;
-          }
-          _ => {}
-        }
-        label = format!("exists({class}):{r:?}");
-      }
-      _ => unreachable!("result kind matches operation kind"),
-    }
-    self.col.outcome(&label);
-    if !ok {
-      return None;
-    }
-    real.record(op, &res);
-    if real.slots.len() != slots.len() {
-      self.diverged.store(true, Ordering::Relaxed);
-      return None;
-    }
-    // the complete observation vector of the real store against the model
-    let obs = real.observe();
-    let (want, want_count) = expected_obs(&slots);
-    let target: Option<usize> = match op {
-      KOp::Sign(s, _) | KOp::Delete(s) | KOp::Exists(s) if s != NEVER => Some(s as usize),
-      KOp::Generate(..) | KOp::Insert(_) if slots.len() > s.slots.len() => Some(slots.len() - 1),
-      _ => None,
-    };
-    let name = op_name(op);
-    for (i, ((e, sg), (we, wsg))) in obs.slots.iter().zip(&want).enumerate() {
-      let who = if Some(i) == target { "target-key" } else { "other-key" };
-      if e != we {
-        let what = if *we == 1 { "no-longer-exists" } else { "exists-although-deleted" };
-        viol(&format!("JwkStorage::{name}|state|{who}-{what}"), format!("slot {i}: exists observed {e}, model {we}"));
-        ok = false;
-      }
-      if let Some(w) = wsg {
-        if sg != w {
-          let what = match (w, sg) {
-            (Some(_), None) => "live-key-cannot-sign",
-            (None, Some(_)) => "deleted-key-signs",
-            (Some(wm), Some(m)) if m & !wm != 0 => "signature-verifies-under-another-stored-key",
-            _ => "signature-does-not-verify-under-the-keys-public-jwk",
-          };
-          viol(&format!("JwkStorage::{name}|state|{who}-{what}"), format!("slot {i}: sign matrix row observed {sg:?}, model {w:?}"));
-          ok = false;
-        }
-      }
-    }
-    if obs.never != (0, None) {
-      viol(&format!("JwkStorage::{name}|state|never-issued-key-id-usable"), format!("{:?}", obs.never));
-      ok = false;
-    }
-    if obs.count != want_count {
-      viol(&format!("JwkMemStore::count|after-{name}|disagrees-with-live-keys"), format!("count {} model {want_count}", obs.count));
-      ok = false;
-    }
-    if !ok {
-      return None;
-    }
-    self.col.sample(&case);
-    Some(KState { hist, slots, obs, depth: if self.track_depth { s.depth + 1 } else { 0 } })
-  }
-}
-
-fn op_name(op: KOp) -> &'static str {
-  match op {
-    KOp::Generate(..) => "generate",
-    KOp::Insert(_) => "insert",
-    KOp::Sign(..) => "sign",
-    KOp::Delete(_) => "delete",
-    KOp::Exists(_) => "exists",
-  }
-}
-fn ins_name(v: Ins) -> &'static str {
-  match v {
-    Ins::Valid(_) => "valid-private",
-    Ins::PublicOnly => "public-only",
-    Ins::NoAlg => "no-alg",
-    Ins::WrongAlg => "incompatible-alg",
-    Ins::EcKey => "ec-key",
-    Ins::MalformedD => "malformed-d",
-  }
-}
-fn pk_name(p: Pk) -> &'static str {
-  match p {
-    Pk::Own => "own-public",
-    Pk::Other(_) => "other-slots-public",
-    Pk::WrongAlg => "public-with-ES256",
-    Pk::NoAlg => "public-without-alg",
-    Pk::NonOkp => "p256-public",
-  }
-}
-
-impl Model for KModel {
-  type State = KState;
-  type Action = KOp;
-  fn init_states(&self) -> Vec<KState> {
-    let real = Real::new();
-    vec![KState { hist: vec![], slots: vec![], obs: real.observe(), depth: 0 }]
-  }
-  fn actions(&self, s: &KState, out: &mut Vec<KOp>) {
-    let n = s.slots.len() as u8;
-    if n < self.cap {
-      out.push(KOp::Generate(Gk::Ed25519, Ga::EdDsa));
-      out.push(KOp::Insert(Ins::Valid(1)));
-      out.push(KOp::Insert(Ins::Valid(2)));
-      out.push(KOp::Insert(Ins::MalformedD));
-    }
-    for (k, a) in [(Gk::Ed25519, Ga::Es256), (Gk::Bls12381G2, Ga::EdDsa), (Gk::Bls12381G2, Ga::Es256), (Gk::Bogus, Ga::EdDsa), (Gk::Bogus, Ga::Es256)] {
-      out.push(KOp::Generate(k, a));
-    }
-    for v in [Ins::PublicOnly, Ins::NoAlg, Ins::WrongAlg, Ins::EcKey] {
-      out.push(KOp::Insert(v));
-    }
-    for slot in (0..n).chain([NEVER]) {
-      out.push(KOp::Delete(slot));
-      out.push(KOp::Exists(slot));
-      for pk in [Pk::Own, Pk::WrongAlg, Pk::NoAlg, Pk::NonOkp] {
-        out.push(KOp::Sign(slot, pk));
-      }
-      for j in 0..n {
-        if j != slot {
-          out.push(KOp::Sign(slot, Pk::Other(j)));
-        }
-      }
-    }
-  }
-  fn next_state(&self, s: &KState, op: KOp) -> Option<KState> {
-    self.step(s, op)
-  }
-  fn properties(&self) -> Vec<Property<Self>> {
-    vec![Property::always("violations are collected on the side", |_, _| true)]
-  }
-}
-
-// ================================================================================================ (a2) KeyIdStorage histories
-
-fn digest(i: u8) -> MethodDigest {
-  MethodDigest::unpack(vec![0, i, 0x5a, i.wrapping_mul(37), 1, 2, 3, 4, i ^ 0xff]).expect("digest")
-}
-const KEY_IDS: [&str; 3] = ["key-id-a", "key-id-b", "key-id-c"];
-fn key_id(i: u8) -> KeyId {
-  KeyId::new(KEY_IDS[i as usize % 3])
-}
-fn key_id_index(k: &KeyId) -> u8 {
-  KEY_IDS.iter().position(|s| *s == k.as_str()).map(|p| p as u8).unwrap_or(254)
-}
-
-#[derive(Clone, Debug)]
-struct IState {
-  hist: Vec<IOp>,
-  model: BTreeMap<u8, u8>,
-  /// get_key_id of every digest of the universe (None = error) + count()
-  obs: (Vec<Option<u8>>, usize),
-}
-impl PartialEq for IState {
-  fn eq(&self, o: &Self) -> bool {
-    self.model == o.model && self.obs == o.obs
-  }
-}
-impl Eq for IState {}
-impl Hash for IState {
-  fn hash<H: Hasher>(&self, h: &mut H) {
-    self.model.hash(h);
-    self.obs.hash(h);
-  }
-}
-struct IModel {
-  digests: u8,
-  ids: u8,
-  col: Arc<Collector>,
-}
-fn observe_keyids(store: &KeyIdMemstore, digests: u8) -> (Vec<Option<u8>>, usize) {
-  let v = (0..digests)
-    .map(|d| match guard(|| block_on(store.get_key_id(&digest(d)))) {
-      Ok(Ok(k)) => Some(key_id_index(&k)),
-      _ => None,
-    })
-    .collect();
-  (v, block_on(store.count()))
-}
-fn apply_iop(store: &KeyIdMemstore, op: IOp) -> Result<Result<Option<u8>, String>, vx::Panicked> {
-  match op {
-    IOp::Insert(d, k) => guard(|| block_on(store.insert_key_id(digest(d), key_id(k)))).map(|r| r.map(|_| None).map_err(|e| kerr_kind(&e))),
-    IOp::Get(d) => guard(|| block_on(store.get_key_id(&digest(d)))).map(|r| r.map(|k| Some(key_id_index(&k))).map_err(|e| kerr_kind(&e))),
-    IOp::Delete(d) => guard(|| block_on(store.delete_key_id(&digest(d)))).map(|r| r.map(|_| None).map_err(|e| kerr_kind(&e))),
-  }
-}
-impl Model for IModel {
-  type State = IState;
-  type Action = IOp;
-  fn init_states(&self) -> Vec<IState> {
-    vec![IState { hist: vec![], model: BTreeMap::new(), obs: observe_keyids(&KeyIdMemstore::new(), self.digests) }]
-  }
-  fn actions(&self, _s: &IState, out: &mut Vec<IOp>) {
-    for d in 0..self.digests {
-      for k in 0..self.ids {
-        out.push(IOp::Insert(d, k));
-      }
-      out.push(IOp::Get(d));
-      out.push(IOp::Delete(d));
-    }
-  }
-  fn next_state(&self, s: &IState, op: IOp) -> Option<IState> {
-    self.col.eval1();
-    let store = KeyIdMemstore::new();
-    for h in &s.hist {
-      let _ = apply_iop(&store, *h);
-    }
-    let mut hist = s.hist.clone();
-    hist.push(op);
-    let case = Case::KeyId { hist: hist.clone() };
-    let viol = |key: &str, what: String| self.col.violation(key, &format!("{what}; history {hist:?}"), &case);
-    let mut model = s.model.clone();
-    let r = match apply_iop(&store, op) {
-      Ok(r) => r,
-      Err(p) => {
-        viol(&format!("KeyIdStorage|{}", p.key()), p.msg.clone());
-        return None;
-      }
-    };
-    let mut ok = true;
-    let label;
-    match op {
-      IOp::Insert(d, k) => {
-        let present = model.contains_key(&d);
-        match (&r, present) {
-          (Ok(_), false) => {
-            model.insert(d, k);
-          }
-          (Ok(_), true) => {
-            viol("KeyIdStorage::insert_key_id|digest-already-mapped|accepted", format!("second insert for digest {d} returned Ok"));
-            ok = false;
-          }
-          (Err(kind), false) => {
-            viol("KeyIdStorage::insert_key_id|digest-unmapped|rejected", format!("Err({kind})"));
-            ok = false;
-          }
-          (Err(_), true) => {}
-        }
-        label = format!("insert_key_id({}):{}", if present { "digest-mapped" } else { "digest-unmapped" }, res_name(&r));
-      }
-      IOp::Get(d) => {
-        match (&r, model.get(&d)) {
-          (Ok(Some(k)), Some(m)) if k == m => {}
-          (Err(_), None) => {}
-          (got, want) => {
-            viol("KeyIdStorage::get_key_id|disagrees-with-model", format!("digest {d}: got {got:?}, model {want:?}"));
-            ok = false;
-          }
-        }
-        label = format!("get_key_id({}):{}", if model.contains_key(&d) { "digest-mapped" } else { "digest-unmapped" }, res_name(&r));
-      }
-      IOp::Delete(d) => {
-        let present = model.remove(&d).is_some();
-        match (&r, present) {
-          (Ok(_), true) | (Err(_), false) => {}
-          (Ok(_), false) => {
-            viol("KeyIdStorage::delete_key_id|digest-unmapped|accepted", format!("digest {d}"));
-            ok = false;
-          }
-          (Err(kind), true) => {
-            viol("KeyIdStorage::delete_key_id|digest-mapped|rejected", format!("Err({kind})"));
-            ok = false;
-          }
-        }
-        label = format!("delete_key_id({}):{}", if present { "digest-mapped" } else { "digest-unmapped" }, res_name(&r));
-      }
-    }
-    self.col.outcome(&label);
-    if !ok {
-      return None;
-    }
-    let obs = observe_keyids(&store, self.digests);
-    let want: Vec<Option<u8>> = (0..self.digests).map(|d| model.get(&d).copied()).collect();
-    if obs.0 != want || obs.1 != model.len() {
-      let key = match op {
-        IOp::Insert(d, _) if s.model.contains_key(&d) => "KeyIdStorage::insert_key_id|digest-already-mapped|first-mapping-not-intact".to_string(),
-        IOp::Insert(..) => "KeyIdStorage::insert_key_id|state|mapping-not-recorded-or-other-entry-changed".to_string(),
-        IOp::Get(_) => "KeyIdStorage::get_key_id|state|store-changed".to_string(),
-        IOp::Delete(_) => "KeyIdStorage::delete_key_id|state|entry-not-removed-or-other-entry-changed".to_string(),
-      };
-      viol(&key, format!("observed {obs:?}, model {want:?} / {}", model.len()));
-      return None;
-    }
-    self.col.sample(&case);
-    Some(IState { hist, model, obs })
-  }
-  fn properties(&self) -> Vec<Property<Self>> {
-    vec![Property::always("violations are collected on the side", |_, _| true)]
-  }
-}
-fn res_name<T>(r: &Result<T, String>) -> String {
-  match r {
-    Ok(_) => "ok".into(),
-    Err(k) => format!("err({k})"),
-  }
 }
 
 // ================================================================================================ (b) threads
@@ -1307,30 +558,8 @@ fn thread_programs(ctx: &Ctx) -> Vec<Program> {
 fn eval(ctx: &Ctx, case: &Case) {
   ctx.eval1();
   match case {
-    Case::Jwk { cap, hist } => {
-      let col = Collector::new();
-      let m = KModel { cap: *cap, track_depth: false, col: col.clone(), diverged: Arc::new(AtomicBool::new(false)) };
-      let mut st = m.init_states().remove(0);
-      for op in hist {
-        match m.next_state(&st, *op) {
-          Some(n) => st = n,
-          None => break,
-        }
-      }
-      col.drain_into(ctx, "jwk-replay");
-    }
-    Case::KeyId { hist } => {
-      let col = Collector::new();
-      let m = IModel { digests: 3, ids: 3, col: col.clone() };
-      let mut st = m.init_states().remove(0);
-      for op in hist {
-        match m.next_state(&st, *op) {
-          Some(n) => st = n,
-          None => break,
-        }
-      }
-      col.drain_into(ctx, "keyid-replay");
-    }
+    Case::Jwk { cap, hist } => seq::replay_jwk::<Mem>(*cap, hist).drain_into(ctx, "jwk-replay"),
+    Case::KeyId { hist } => seq::replay_keyid::<Mem>(hist).drain_into(ctx, "keyid-replay"),
     Case::Threads(p) => {
       let r = run_program(p);
       report_thread_run(ctx, p, &r);
@@ -1343,26 +572,20 @@ fn generate(ctx: &Ctx) {
   ctx.assume("tokio::sync::RwLock is a lock; scheduling points exist exactly where the verif-hooks hook is called (before every lock acquisition of the in-memory stores)");
   ctx.assume("(a1) merges two histories iff model state and the complete observation vector of the rebuilt real store coincide; a difference invisible to every observation at every later step is not excluded (bounded-observation caveat)");
   ctx.assume("EdDSAJwsVerifier and the harness's fixed-seed Ed25519 keys (iota-crypto) are the trusted verification base; the RFC 7638 thumbprint is recomputed by the harness with sha2");
-  ctx.assume("Stronghold (part c of the design) is not covered by this binary");
+  ctx.assume("Stronghold (part c of the design) is not covered by this binary (binary c15s, evidence C15S)");
 
   // ---------------------------------------------------------------- (a1)
   let cap = ctx.by_tier(3u8, 4u8);
   let diverged = Arc::new(AtomicBool::new(false));
-  let st = vx::sr::run(ctx, &format!("(a1) JwkMemStore histories, <= {cap} issued ids, to closure"), None, |col| KModel {
-    cap,
-    track_depth: false,
-    col,
-    diverged: diverged.clone(),
+  let st = vx::sr::run(ctx, &format!("(a1) JwkMemStore histories, <= {cap} issued ids, to closure"), None, |col| {
+    KModel::<Mem>::new(cap, false, col, diverged.clone())
   });
   for i in 0..st.unique {
     ctx.distinct(&(1u8, i));
   }
   let depth = ctx.by_tier(5usize, 7usize);
-  let st = vx::sr::run(ctx, &format!("(a1) JwkMemStore histories, <= 3 issued ids, depth {depth} (depth in fingerprint)"), Some(depth), |col| KModel {
-    cap: 3,
-    track_depth: true,
-    col,
-    diverged: diverged.clone(),
+  let st = vx::sr::run(ctx, &format!("(a1) JwkMemStore histories, <= 3 issued ids, depth {depth} (depth in fingerprint)"), Some(depth), |col| {
+    KModel::<Mem>::new(3, true, col, diverged.clone())
   });
   for i in 0..st.unique {
     ctx.distinct(&(2u8, i));
@@ -1373,7 +596,7 @@ fn generate(ctx: &Ctx) {
 
   // ---------------------------------------------------------------- (a2)
   let (nd, nk) = ctx.by_tier((2u8, 2u8), (3u8, 3u8));
-  let st = vx::sr::run(ctx, &format!("(a2) KeyIdMemstore histories, {nd} digests x {nk} key ids, to closure"), None, |col| IModel { digests: nd, ids: nk, col });
+  let st = vx::sr::run(ctx, &format!("(a2) KeyIdMemstore histories, {nd} digests x {nk} key ids, to closure"), None, |col| IModel::<Mem>::new(nd, nk, col));
   for i in 0..st.unique {
     ctx.distinct(&(3u8, i));
   }
